@@ -81,7 +81,19 @@ def spec_strategy(draw, g, subs, nvdim, dtype):
     if kind == "field":
         lo = [draw(st.sampled_from([0, 0, 0.5, 1, 2.3])) for _ in range(nd)]
         hi = [draw(st.sampled_from([0, 0, 0.5, 1, 2.3])) for _ in range(nd)]
-        n2 = [draw(st.integers(1, 7)) for _ in range(nd)]
+        # coincidences a shortcut could key on: equal cell counts on a larger region, equal region with
+        # other counts, whole multiples / divisors of the target's counts
+        mode = draw(st.sampled_from(["free", "free", "same-n", "same-n", "multiple", "mixed"]))
+        n2 = []
+        for d in range(nd):
+            m = mode if mode != "mixed" else draw(st.sampled_from(["free", "same-n", "multiple"]))
+            if m == "same-n":
+                n2.append(g["n"][d])
+            elif m == "multiple":
+                n2.append(max(1, min(12, g["n"][d] * draw(st.sampled_from([2, 3])) if draw(st.booleans())
+                                     else g["n"][d] // draw(st.sampled_from([2, 3])))))
+            else:
+                n2.append(draw(st.integers(1, 7)))
         return ["field", lo, hi, n2, draw(st.integers(0, 2**31))]
     # dict
     names = [s[0] for s in subs]
